@@ -34,10 +34,10 @@ def setup(tier):
 
 
 def cases(tier, seed):
-    per = 40 if tier == "quick" else 1500
+    per = 40 if tier == "quick" else 6000
     names = gen.enzyme_names()
     out = _embedded.assembly_cases(seed, per * len(names), features=False, max_chain=6)
-    out += _embedded.registry_assembly_cases(seed, per_vector=2 if tier == "quick" else 12)
+    out += _embedded.registry_assembly_cases(seed, per_vector=2 if tier == "quick" else 40)
     return out
 
 
